@@ -69,9 +69,12 @@ def corpus():
 
 def _generated_source(rng):
     """Programs from the C15 / C16 generators (more shapes than the corpus)."""
-    from . import gen15, gen16, lang
+    from . import gen15, gen16, genmisc, lang
 
-    if rng.random() < 0.5:
+    c = rng.random()
+    if c < 0.5:
+        return genmisc.gen_source(rng)
+    if c < 0.75:
         sw = gen15.draw_swarm(rng)
         prog = gen15.ProgGen(rng, sw).program()
         return lang.program_src(prog)
@@ -89,7 +92,7 @@ def generate(seed, tier):
         if "import " in src and not with_imports:
             continue
         pool.append(src)
-    n_gen = rng.choice([0, 2, 4, 8])
+    n_gen = rng.choice([0, 2, 4, 8, 12])
     for _ in range(n_gen):
         pool.append(_generated_source(srng))
     # focus keys recur across processes and positions
